@@ -23,6 +23,7 @@ import time
 from concurrent.futures import ThreadPoolExecutor
 
 import k4_front as k4
+import k4_lexmodel
 import lv
 
 NPROC = max(1, min(16, os.cpu_count() or 1))
@@ -1089,6 +1090,7 @@ def check_C12(work, args):
         if CLASSES[e['class']][0] == 'format_panic' and CLASSES[e['class']][1](e['witness']['text'], r):
             ck.known.append('%s: (formatter stage, judged by C17) %s on %r: formatter panicked: %s'
                             % (e['id'], e['class'], e['witness']['text'], r['format'].get('msg', '')[:160]))
+    lexcov = k4_lexmodel.check_hook(ck, 'C12', k4_lexmodel.sample_job_texts(jobs, ck.rng, 3000 if quick else 60000))
     ck.cov = base_cov(agg, 'texts: (a) ALL sequences of up to %d items from %d representative lexemes, each joined with "" and with " " (exhaustive); '
                       '(b) the repo\'s .llw files, their token-level mutants (delete/duplicate/insert/swap/truncate, 1-3 operations), truncations at token '
                       'boundaries and single-token deletions; (c) random character soup (ASCII, multi-byte, string/comment openers); (e) valid grammars with 1..400 '
@@ -1096,6 +1098,7 @@ def check_C12(work, args):
                       'no panic/hang in lexing, parsing, tree walk, analysis and rendering of every diagnostic with codespan-reporting; token spans tile the text on '
                       'character boundaries; every diagnostic label and tree node span lies in the text on character boundaries. '
                       'non-trivial = at least 2 non-whitespace tokens; distinct by text (64-bit hash)' % (maxn, len(k4.LEXEMES)), settled)
+    ck.cov.update(lexcov)
     ck.cov['exhaustive_part'] = 'generator (a): every sequence of at most %d lexemes x 2 joiners (%d texts)' % (maxn, sum(k4.seq_count(n) for n in range(maxn + 1)))
     ck.cov['lexemes'] = k4.LEXEMES
     ck.cov['cli_probe'] = cli_stats
@@ -1116,17 +1119,20 @@ def check_C17(work, args):
     maxn = 3 if quick else 4
     jobs = mutant_jobs('C17', ck.rng, quick) + nesting_jobs('C17') + soup_jobs('C17', ck.rng, 30000 if quick else 400000) + seq_jobs('C17', maxn)
     agg = run_jobs(job_any_text, jobs)
-    agg2 = run_jobs(job_layouts, layout_jobs('C17', ck.rng, quick))
+    ljobs = layout_jobs('C17', ck.rng, quick)
+    agg2 = run_jobs(job_layouts, ljobs)
     n_layout = agg2['n']
     comparisons = agg2['extra'].get('token_and_diagnostic_comparisons', 0)
     _merge(agg, agg2)
     kf = Findings('C17')
     settled = settle(ck, 'C17', agg, kf)
+    lexcov = k4_lexmodel.check_hook(ck, 'C17', k4_lexmodel.sample_job_texts(jobs + ljobs, ck.rng, 3000 if quick else 60000))
     ck.cov = base_cov(agg, 'character-level claim on texts (a) all sequences of up to %d of %d lexemes x 2 joiners, (b) repo .llw files and their token-level mutants/truncations/'
                       'deletions, (c) character soup: format() returns without panic/hang and keeps the non-whitespace characters in order. Token/semantic claims on (d) '
                       'syntactically valid files (random grammars incl. token symbols with escapes, and the repo\'s valid .llw files) re-joined with random whitespace and '
                       'comments: the output lexes to the same tokens and comments, parses without syntax error and draws the same (code, message) multiset. '
                       'non-trivial = at least 2 (texts) / 8 (layouts) non-whitespace tokens; distinct by text (64-bit hash)' % (maxn, len(k4.LEXEMES)), settled)
+    ck.cov.update(lexcov)
     ck.cov['layout_cases'] = n_layout
     ck.cov['layout_cases_compared_tokens_and_diagnostics'] = comparisons
     ck.cov['exhaustive_part'] = 'generator (a): every sequence of at most %d lexemes x 2 joiners (%d texts)' % (maxn, sum(k4.seq_count(n) for n in range(maxn + 1)))
@@ -1361,6 +1367,7 @@ def check_C13(work, args):
         ck.violation('%s [%d more failing layouts of this kind]' % (f['what'], len(fs) - 1),
                      {'text': f['text'], 'written_grammar': f['written'], 'kind': kind, 'origin': f['origin'],
                       'canon': f['canon'], 'struct': f['struct']})
+    lexcov = k4_lexmodel.check_hook(ck, 'C13', k4_lexmodel.sample_job_texts([{'gen': 'c13_layout', 'texts': [it['text'] for it in items]}], ck.rng, 3000 if quick else 60000, per_job=10 ** 9))
     ck.cov = {
         'evaluations': n, 'distinct_nontrivial': len(distinct),
         'rule': 'random grammars (gen_grammar: alternation, ordered choice, concatenation, postfix, predicates, actions, assertions, renames, elisions, markers, '
@@ -1375,5 +1382,6 @@ def check_C13(work, args):
         'typed_view_node_kinds_seen': dict(nodes), 'grammar_feature_histogram': dict(feats),
         'failing_layouts': len(fails), 'failure_kinds': {k_: len(v) for k_, v in groups.items()},
     }
+    ck.cov.update(lexcov)
     ck.assumptions = TRUST + ['harness/src/dump.rs reads the typed view through the public ast.rs accessors', 'the reference is tools/k4_front.py\'s printer pp (minimal parentheses by precedence)']
     ck.finish()
